@@ -21,10 +21,11 @@ CLAIM = dict(
           "known finding (seq-wrap), reproduced on every run with 65,537 commands."),
     technique="Lean 4 invariant proofs over an environment-parametrised state machine + trace correspondence + Lean spec oracle")
 
-THEOREMS = ["consts_documented"]
-THEOREMS_TODO = ["window_bound", "seqs_distinct", "callback_at_most_once", "done_all_called",
-            "callback_own_seq", "tries_bound", "timeout_only_after_all_tries", "no_early_retransmit",
-            "fatal_raises", "retryable_ignored", "send_bound"]
+THEOREMS = ["consts_documented", "window_bound", "window_bound_fill", "seqs_distinct",
+            "callback_at_most_once", "done_all_called", "callback_own_seq", "seq_fixed", "tries_bound",
+            "sends_numbered", "send_bound", "timeout_only_after_all_tries", "no_early_retransmit",
+            "fatal_raises", "fatal_raises_iter", "fatal_raises_run", "fatal_only_from_reply",
+            "retryable_ignored", "seq_injective", "callback_own_reply", "own_reply_wrap_counterexample"]
 
 RULE = ("cases = (window 1-8, tries 1-5, timeout 2-6 ticks, sequence mask 0xffff or small, 1-3 bursts of 0-40 commands with "
         "per-command extra timeouts on one connection, per-datagram outcome script drawn from {ok with latency, request/"
